@@ -69,6 +69,7 @@ def setup_engine(seed=0):
     libmodel.install(E)
     libmodel.install_io(E)
     libmodel.install_spec(E)
+    libmodel.install_order(E)
     import spec.runtime as S
 
     def m_re_valid(E, args, kw):
